@@ -126,3 +126,31 @@ def run_canaries(rep, prop, sub, acc):
     if wrongly or len(cans) not in a:
         raise tlc.MachineryError(f"canary failure for {prop}: accepted corrupted traces {wrongly}; control accepted={len(cans) in a}")
     rep.extra["canaries_rejected"] = [c[0] for c in cans]
+
+
+def suite_part(rep, prop):
+    """The repository's own tests as a source of executions: every convert() the suite performs, hooks on, judged by TLC."""
+    import os
+
+    from harness import suitetraces
+
+    recs = suitetraces.record(os.environ.get("VERIF_REPO", "/repo"))
+    trs = suitetraces.traces(recs)
+    sub = [t for t in trs if t["frag"] and t["trace"] and len(t["trace"]) <= 80]
+    if len(sub) < 300:
+        raise tlc.MachineryError(f"test-suite recording produced only {len(sub)} usable traces out of {len(recs)} conversions")
+    acc, info = tlc.validate_traces(TRACE_MOD, TRACE_CFG, [t["trace"] for t in sub], shards=12, env={"PROP": prop, "VERIF_SRC": "suite"}, tag=f"suite{prop}", timeout=1500)
+    rep.traces_validated += len(acc)
+    why = {}
+    for t in trs:
+        if not (t["frag"] and t["trace"]):
+            k = (t.get("why") or "outside the modelled fragment (loop / osm / external instance / cascading ...)").split(":")[0]
+            why[k] = why.get(k, 0) + 1
+    rep.extra.setdefault("trace_runs", []).append({"source": "conversions performed by the repository's own test-suite (hooks on)", "conversions_recorded": len(recs),
+                                                   "traces": len(sub), "accepted": len(acc), "abstained": why, "wall_s": round(info["wall"], 1)})
+    for i, t in enumerate(sub):
+        rep.case({"suite_test": t["test"], "n": i}, nontrivial=t["status"] == "ok")
+        if i not in acc:
+            l, clause = info["progress"].get(i, (0, "unexplained_event"))
+            rep.violation(f"{prop}:{clause}:suite", f"execution recorded from {t['test']} rejected at event {l} clause {clause}; status={t['status']} {str(t.get('message'))[:120]}",
+                          {"suite_test": t["test"], "wb": t["wb"], "clause": clause, "event": l})
